@@ -305,14 +305,12 @@ class ParametriseTransformation(Transformation):
             call_map = {}
             for call in FindNodes(ir.CallStatement).visit(routine.body):
                 if str(call.name) in successor_map:
-                    successor_map[str(call.name)].trafo_data[self._key] = {}
-                    arg_map = dict(call.arg_iter())
-                    arg_map_reversed = {v: k for k, v in arg_map.items()}
-                    indices = [call.arguments.index(var2p) for var2p in vars2p if var2p in call.arguments]
-                    for index in indices:
-                        name = str(call.name)
-                        successor_map[name].trafo_data[self._key][str(arg_map_reversed[call.arguments[index]])] = \
-                            dic2p[call.arguments[index].name]
+                    successor_dic2p = {}
+                    # every (positional) occurrence of a parametrised variable fixes the corresponding dummy
+                    for dummy, arg in zip(call.routine.arguments, call.arguments):
+                        if arg in vars2p:
+                            successor_dic2p[str(dummy)] = dic2p[arg.name]
+                    successor_map[str(call.name)].trafo_data[self._key] = successor_dic2p
                     arguments = tuple(arg for arg in call.arguments if arg not in vars2p)
                     call_map[call] = call.clone(arguments=arguments)
             routine.body = Transformer(call_map).visit(routine.body)
